@@ -85,6 +85,20 @@ def acceptable(collected):
     return True
 
 
+def ineligible_exemplar(collected):
+    """name of a sample carrying an exemplar where the format allows none (only counter _total and histogram /
+    gaugehistogram _bucket samples - and native histogram samples, which the generator never builds - may), else None"""
+    for f in collected:
+        for s in f.samples:
+            if s.exemplar is None:
+                continue
+            ok = (f.type == 'counter' and s.name.endswith('_total')) or \
+                 (f.type in ('histogram', 'gaugehistogram') and s.name.endswith('_bucket'))
+            if not ok:
+                return s.name
+    return None
+
+
 _cache = [None, None]
 
 
@@ -103,14 +117,17 @@ def _impl(case):
     from prometheus_client.openmetrics.exposition import generate_latest
     from prometheus_client.openmetrics.parser import text_string_to_metric_families
     rng = random.Random(case['rseed'])
-    reg = reggen.gen_registry(rng, utf8=case['utf8'], om=True, exemplars=True, units=True)
+    reg = reggen.gen_registry(rng, utf8=case['utf8'], om=True, exemplars=True, units=True, ineligible=True)
     collected = list(reg.collect())
     if not reggen.encodable(collected) or not acceptable(collected):
         return dict(skip='outside domain')
+    inel = ineligible_exemplar(collected)
     try:
         text = generate_latest(reg).decode('utf-8')
     except Exception as e:
-        return dict(expose_error=type(e).__name__)
+        return dict(expose_error=type(e).__name__, ineligible=inel, fams=jsonable_fams(reggen.families_in(collected)))
+    if inel:
+        return dict(ineligible=inel, text=text, fams=jsonable_fams(reggen.families_in(collected)))
     try:
         parsed = ['ok', canon_fams(list(text_string_to_metric_families(text)))]
     except ValueError as e:
@@ -128,10 +145,13 @@ def model(m, case):
     if case.get('dir') == 2:
         return dict(dir2=c04b.model(m, case))
     obs = impl(case)
-    if 'skip' in obs or 'expose_error' in obs:
+    if 'skip' in obs or 'fams' not in obs:
         return obs
     r = d_res(d_str, m.call('om_render', True, unjson_fams(obs['fams'])))
     out = dict(obs)
+    out.pop('expose_error', None)
+    if r[0] != 'ok':
+        out['expose_error'] = r[1]
     out['text'] = r[1] if r[0] == 'ok' else None
     if c14om is not None and out['text'] is not None:
         out['om_obs'] = c03.jsonable(c14om.obs_model(m, out['text']))
@@ -143,8 +163,8 @@ def same(a, b):
         return True
     if 'dir2' in a:
         return c04b.same(a['dir2'], b['dir2']) if hasattr(c04b, 'same') else a['dir2'] == b['dir2']
-    if 'expose_error' in a:
-        return False
+    if 'expose_error' in a or 'expose_error' in b:
+        return a.get('expose_error') == b.get('expose_error')
     return a['text'] == b['text'] and a.get('om_obs') == b.get('om_obs')
 
 
@@ -153,6 +173,11 @@ def direct(case, obs):
         return c04b.direct(case, obs['dir2'])
     if 'skip' in obs:
         return None
+    if obs.get('ineligible'):
+        if obs.get('expose_error') == 'ValueError':
+            return None
+        return ('the exposition %s for sample %r, which carries an exemplar where the format allows none; the parser rejects such a line'
+                % ('raised %s' % obs['expose_error'] if 'expose_error' in obs else 'wrote %r' % obs.get('text', '')[:300], obs['ineligible']))
     if 'expose_error' in obs:
         return 'OpenMetrics exposition raised %s on an API-built registry' % obs['expose_error']
     if obs['parsed'][0] != 'ok':
@@ -198,6 +223,8 @@ def classify(case, obs):
     if 'skip' in obs:
         return ['skip']
     k = ['dir%d' % case.get('dir', 1)]
+    if obs.get('ineligible'):
+        k.append('ineligible_exemplar')
     t = obs.get('text') or ''
     if ' # {' in t:
         k.append('exemplar')
